@@ -58,6 +58,8 @@ def classify(path):
         return "write"  # anything else under fs/process/os/net is treated as write-capable
     if path.startswith("std::env::"):
         return "write"  # set_var, set_current_dir, remove_var ...
+    if path in ("std::io::_print", "std::io::_eprint"):
+        return "pure"  # text on the process's standard streams: not a file of the analysed tree or of the working directory, and never read back
     if path.startswith("std::io::"):
         return "io"
     return "other"
